@@ -27,6 +27,7 @@ PROP_MODULES = {
     "C09": ["contracts.c09"],
     "C10": ["contracts.c10"],
     "C07": ["contracts.c07"],
+    "C20": ["contracts.c20"],
 }
 
 
